@@ -146,8 +146,62 @@ impl Case for C18 {
     }
 }
 
+/// explicit C18 shapes: all-infinity matrices, rows whose maximum sits on
+/// the diagonal, all-negative isize matrices (a negative infinity included)
+fn c18_structured() -> Vec<C18> {
+    let mut out = Vec::new();
+    for order in 1..=6usize {
+        for (ty, infs) in [
+            ("usize", vec![usize::MAX as i128, 0, 7]),
+            ("isize", vec![isize::MAX as i128, 0, 7, -1, isize::MIN as i128 + 5]),
+        ] {
+            for inf in infs {
+                let lo: i128 = if ty == "usize" { 0 } else { (isize::MIN as i128).max(inf - 9) };
+                let hi = inf;
+                let clamp = |x: i128| x.clamp(lo, hi);
+                // all infinity
+                out.push(C18 { ty, order, infinity: inf, entries: vec![inf; order * order] });
+                // all infinity except one finite row
+                let mut e = vec![inf; order * order];
+                for v in 0..order {
+                    e[(order - 1) * order + v] = clamp(inf - 1 - v as i128);
+                }
+                out.push(C18 { ty, order, infinity: inf, entries: e });
+                // the maximum of every row sits on the diagonal
+                let e: Vec<i128> = (0..order * order)
+                    .map(|i| {
+                        let (u, v) = (i / order, i % order);
+                        if u == v { clamp(inf - 1 - (u % 3) as i128) } else { clamp(inf - 5 - ((u + v) % 4) as i128) }
+                    })
+                    .collect();
+                out.push(C18 { ty, order, infinity: inf, entries: e });
+                // zero diagonal, everything else larger (a distance matrix)
+                let e: Vec<i128> = (0..order * order)
+                    .map(|i| if i / order == i % order { clamp(0) } else { clamp(1 + (i % 5) as i128) })
+                    .collect();
+                out.push(C18 { ty, order, infinity: inf, entries: e });
+                if ty == "isize" {
+                    // strictly negative entries
+                    let e: Vec<i128> = (0..order * order)
+                        .map(|i| clamp(-1 - ((i * 7 + i / order) % 6) as i128).min(-1).max(lo))
+                        .collect();
+                    if e.iter().all(|&x| x <= inf) {
+                        out.push(C18 { ty, order, infinity: inf, entries: e });
+                    }
+                }
+            }
+        }
+    }
+    out
+}
+
 pub fn search_c18(seed: u64, ctx: &mut Ctx) -> Option<J> {
     let mut rng = Rng::new(seed);
+    for c in c18_structured() {
+        if let Some(f) = ctx.eval(&c) {
+            return Some(f);
+        }
+    }
     for i in 0..200_000usize {
         // tiny orders first
         let order = 1 + rng.below((1 + i / 500).min(6));
